@@ -125,6 +125,9 @@ def mutate(rng, toks, kind=None):
             return None
         new = m.group(1) + rng.choice([l for l in ["", "A", "B", "C", "D", "F", "G", "H", "K", "L", "M", "P", "R", "S"] if l != m.group(2)])
         toks[i] = (new, c)
+    elif kind == "copy":
+        # a copy of a field placed anywhere else (e.g. a sequence-B field also in sequence A)
+        toks.insert(rng.randrange(len(toks) + 1), toks[i])
     elif kind == "insert_sibling":
         # a copy of a field under a sibling tag, placed just before it
         t, c = toks[i]
